@@ -611,7 +611,7 @@ pub fn nontrivial(target: &str, op: &Op, pre: &Snap, post: &Snap, notes: &Notes)
             matches!(op, Op::So | Op::Si | Op::DefCharset(..))
                 || (matches!(op, Op::Draw(_)) && notes.tags.contains(&"charset"))
         }
-        "C09" | "C17" | "C10" | "*" => changed || pre.cx != post.cx || pre.cy != post.cy || pre.modes != post.modes,
+        "C01" | "C09" | "C17" | "C10" | "*" => changed || pre.cx != post.cx || pre.cy != post.cy || pre.modes != post.modes,
         _ => false,
     }
 }
@@ -1042,7 +1042,38 @@ pub fn run_forked(base: &Screen, case: &Case, from: usize, cfg: &Cfg) -> CaseRes
     run_on(&mut term, case, from, cfg)
 }
 
+/// like `run_forked`, but also hands back the screen reached (for depth-first exploration)
+pub fn run_forked_keep(base: &Screen, case: &Case, from: usize, cfg: &Cfg) -> (CaseResult, Screen) {
+    let chk = Checker::new(cfg.clone());
+    let mut term = Term::from_screen(base.clone(), Some(chk));
+    // the direct-attachment differential only makes sense for whole cases
+    let res = run_on_opt(&mut term, case, from, cfg, false);
+    let screen = lock(&term.tee).screen.clone();
+    (res, screen)
+}
+
+/// representation-aware fingerprint of a reached state: the abstract snapshot plus which rows
+/// and cells are materialised (also outside the grid), so that states that only differ in
+/// their sparse representation are explored separately
+pub fn state_fingerprint(s: &Screen) -> u64 {
+    let mut shape: Vec<(u32, Vec<u32>)> = s
+        .buffer
+        .iter()
+        .map(|(y, row)| {
+            let mut xs: Vec<u32> = row.keys().cloned().collect();
+            xs.sort();
+            (*y, xs)
+        })
+        .collect();
+    shape.sort();
+    hash_of(&(hash_of(&Snap::of(s)), shape))
+}
+
 fn run_on(term: &mut Term, case: &Case, from: usize, cfg: &Cfg) -> CaseResult {
+    run_on_opt(term, case, from, cfg, true)
+}
+
+fn run_on_opt(term: &mut Term, case: &Case, from: usize, cfg: &Cfg, direct: bool) -> CaseResult {
     // shadows
     let mut c10_shadow: Option<Term> =
         if cfg.c10 && from == 0 { Some(Term::new(case.cols, case.lines, None)) } else { None };
@@ -1250,7 +1281,7 @@ fn run_on(term: &mut Term, case: &Case, from: usize, cfg: &Cfg) -> CaseResult {
 
     // direct attachment vs per-call forwarding: the state reached through the checked listener
     // (every step of which agreed with the model) must be the state an embedder gets
-    if from == 0 {
+    if from == 0 && direct {
         let panicked = lock(&term.tee).chk.as_ref().map_or(false, |c| c.fails.iter().any(|f| f.kind == "panic"));
         if !panicked {
             extra_stats.evaluations += 1;
